@@ -53,6 +53,7 @@ int verif_clock_gettime(clockid_t id, struct timespec* ts) { (void)id; ts->tv_se
 #include <signal.h>
 #include <sys/mman.h>
 #include "prng.h"
+#include "determ.h"
 
 #define MAXT 4
 #define MAXF 4
@@ -423,6 +424,7 @@ static void on_segv(int sig) { printf("V crash t%d step=%ld signal %d\n", cur, s
 
 int main(int argc, char** argv) {
   if (argc < 5) { fprintf(stderr, "usage: s_arena <raw|arena> <seed> <nthreads> <nops> [log]\n"); return 2; }
+  verif_no_aslr(argv);
   mode = !strcmp(argv[1], "arena") ? 1 : 0;
   uint64_t seed = strtoull(argv[2], NULL, 10); nthreads = atoi(argv[3]); nops = atoi(argv[4]); do_log = argc > 5;
   if (nthreads > MAXT) nthreads = MAXT;
